@@ -4,8 +4,8 @@
 
    Values.  A lowered value is a [tensor] of terminal expressions (Core/Classical.v), read the way
    the code builds them:  [Sc] a scalar sympy expression, [Mat] an ImmutableDenseMatrix (a vector
-   is the d x 1 column the code makes of a VectorFunction), [Vec] a sympy *Tuple* (what Cross_3d and
-   the matrix arm of Dot_3d return).  The distinction matters: Python's `+` and `*` act entry-wise on
+   is the d x 1 column the code makes of a VectorFunction), [Vec] a sympy *Tuple* (a literal Tuple the user wrote; before the
+   repair 14cf28b also what Cross_3d returned).  The distinction matters: Python's `+` and `*` act entry-wise on
    matrices but concatenate / repeat tuples.
 
    Derivatives.  The tables of Gen/Formulas.v are terms over generic atoms  d^al u, d^al F_i,
@@ -569,48 +569,27 @@ Fixpoint leaves_ok (lg : bool) (d : nat) (e : gexpr) {struct e} : bool :=
 (* "supported": well-shaped, operators that exist in dimension d, leaves of the right family *)
 Definition supported (lg : bool) (d : nat) (e : gexpr) : bool := has_shape d e && leaves_ok lg d e.
 
-(* The two confirmed defects (DESIGN section 7) are excluded by [regular], stated on what the code
-   actually computes (the minimal guard):
-   - no operand of + or * lowers to a sympy Tuple (Cross_3d returns a Tuple: `+` concatenates,
-     `int *` repeats, anything else raises);
-   - no argument of Dot lowers to a d x d matrix (algebra.Dot_2d/3d index a matrix like a vector and
-     return the scalar "first row . v"), and in 3-D no (column, Tuple) pair (Dot_3d indexes the column
-     like a matrix: IndexError); no Laplace of a Tuple (the result is a 1 x d row, which cannot be
-     added to a column afterwards);
-   - products of two matrices (Python's `*` is then the matrix product), symbolic exponents,
-     elementary functions and literal tuples / matrices are not part of the proved fragment. *)
-Definition lowers_to_tuple (lg : bool) (d : nat) (x : gexpr) : bool :=
-  match lower lg d x with Some (Vec _) => true | _ => false end.
-Definition lowered_kind (lg : bool) (d : nat) (x : gexpr) : string :=
-  match lower lg d x with
-  | Some t => match kind_of d t with Some k => k | None => "?" end
-  | None => "-"
-  end.
-
+(* [regular]: the part of the tree language the soundness induction covers.  Since the repairs
+   14cf28b (Cross_3d returns a column matrix) and 1e0454e (matrix arms of Dot_2d / Dot_3d) nothing
+   here is a guard against a defect any more; what is excluded is only what is NOT MODELLED classically:
+   - products with two matrix-valued operands (Python's `*` is then the matrix product);
+   - symbolic (non-literal) exponents;
+   - elementary functions and literal tuples / matrices.
+   (Before the repairs [regular] also had to exclude: Tuple operands of + and *, Dot with a matrix
+   argument, the 3-D (column, Tuple) pair of Dot, Laplace of a Tuple.)
+   On supported trees in dimension 2 and 3 it holds automatically (Proofs/LowerP.v, supported_regular). *)
 Definition lowers_to_mat (lg : bool) (d : nat) (x : gexpr) : bool :=
   match lower lg d x with Some (Mat _) => true | _ => false end.
 
 Fixpoint regular (lg : bool) (d : nat) (e : gexpr) {struct e} : bool :=
   let all := fix all (l : list gexpr) : bool := match l with [] => true | x :: r => regular lg d x && all r end in
   match e with
-  | GAdd l => all l && forallb (fun x => negb (lowers_to_tuple lg d x)) l
-  | GMul l => all l && forallb (fun x => negb (lowers_to_tuple lg d x)) l
-              && Nat.leb (length (filter (lowers_to_mat lg d) l)) 1        (* no matrix products *)
+  | GAdd l => all l
+  | GMul l => all l && Nat.leb (length (filter (lowers_to_mat lg d) l)) 1           (* no matrix products *)
   | GPow b x => regular lg d b && match x with GNum _ _ => true | _ => false end   (* literal exponents *)
   | GFn _ _ => false
-  | GOp1 o a =>
-      regular lg d a &&
-      match o with
-      | OLaplace => negb (String.eqb (lowered_kind lg d a) "t")   (* dx(Tuple) is a 1 x d ROW matrix *)
-      | _ => true
-      end
-  | GOp2 o a b =>
-      regular lg d a && regular lg d b &&
-      match o with
-      | ODot => negb (String.eqb (lowered_kind lg d a) "m") && negb (String.eqb (lowered_kind lg d b) "m")
-                && negb (Nat.eqb d 3 && String.eqb (lowered_kind lg d a) "c" && String.eqb (lowered_kind lg d b) "t")
-      | _ => true
-      end
+  | GOp1 _ a => regular lg d a
+  | GOp2 _ a b => regular lg d a && regular lg d b
   | GTup _ => false
   | GMat _ _ _ => false
   | _ => true
